@@ -2,6 +2,7 @@ package c15
 
 import (
 	"bytes"
+	"errors"
 	"fmt"
 	"sync"
 	"testing"
@@ -28,6 +29,8 @@ type recordingWriter struct {
 	seen   []seen
 	plain  int
 	errors []string
+	// failEvery > 0: the transport refuses the packets whose number is congruent failEvery-1 (after recording them)
+	failEvery int
 }
 
 type sendCtx struct {
@@ -100,9 +103,14 @@ func (r *recordingWriter) Write(h *rtp.Header, p []byte, a interceptor.Attribute
 	r.mu.Lock()
 	r.seen = append(r.seen, seen{writer: ctx.writer, order: ctx.order, number: tcc.TransportSequence})
 	r.mu.Unlock()
+	if r.failEvery > 0 && int(tcc.TransportSequence)%r.failEvery == r.failEvery-1 {
+		return 0, errTransportDown // the packet has its number all the same: numbers stay unique and gap-free at this writer
+	}
 
 	return len(p), nil
 }
+
+var errTransportDown = errors.New("injected transport error")
 
 func TestTransportWideNumbersGapFree(t *testing.T) {
 	rec := kit.NewRecorder("C15", "concurrent-writers",
@@ -132,7 +140,7 @@ func TestTransportWideNumbersGapFree(t *testing.T) {
 				negotiatedStreams++
 				s.id = uint8(rapid.IntRange(1, 14).Draw(t, "extID")) //nolint:gosec
 				info.RTPHeaderExtensions = []interceptor.RTPHeaderExtension{{URI: "urn:other", ID: 15}, {URI: transportCCURI, ID: int(s.id)}}
-				s.sink = &recordingWriter{extID: s.id}
+				s.sink = &recordingWriter{extID: s.id, failEvery: rapid.SampledFrom([]int{0, 0, 2, 7, 97}).Draw(t, "failEvery")}
 				s.w = ic.BindLocalStream(info, s.sink)
 			} else {
 				info.RTPHeaderExtensions = []interceptor.RTPHeaderExtension{{URI: "urn:other", ID: 3}}
@@ -172,7 +180,7 @@ func TestTransportWideNumbersGapFree(t *testing.T) {
 					}
 					payload := []byte{byte(k), byte(k >> 8), byte(w)}
 					ctx := &sendCtx{writer: w, order: k, orig: h.Clone(), payload: payload}
-					if _, err := s.w.Write(&h, payload, interceptor.Attributes{"ctx": ctx}); err != nil {
+					if _, err := s.w.Write(&h, payload, interceptor.Attributes{"ctx": ctx}); err != nil && !errors.Is(err, errTransportDown) {
 						s.sink.mu.Lock()
 						s.sink.errors = append(s.sink.errors, fmt.Sprintf("writer %d packet %d: Write failed: %v", w, k, err))
 						s.sink.mu.Unlock()
